@@ -38,6 +38,7 @@ type dnsEntryObs struct {
 	removeCtx  string
 	ttl        uint32
 	hasTTL     bool
+	refreshed  bool // inserted by a background refresh
 	restored   bool // came from a reload clone: keeps the deadline of its origin
 	origin     *dnsEntryObs
 	countAtRemoval int
@@ -124,6 +125,9 @@ func (t *dnsCacheTrack) scan() {
 	}
 	w := t.w
 	now, step := w.s.Now(), w.s.Step
+	if w.mode == dnsModeC08 {
+		w.c08FlushLRU()
+	}
 	seen := map[string]bool{}
 	var news []*dnsEntryObs
 	t.ctl.dnsCache.Range(func(k, v any) bool {
@@ -149,6 +153,9 @@ func (t *dnsCacheTrack) scan() {
 		for _, id := range e.ids {
 			if a := w.ansByID(id); a != nil {
 				e.ttl, e.hasTTL = a.ttl, true
+				if a.chain != nil && a.chain.refresh {
+					e.refreshed = true
+				}
 				if e.keyOK && (a.name != e.key.name || a.qtype != e.key.qtype) && e.foreign == "" {
 					e.foreign = fmt.Sprintf("answer a%d scripted for %s %s", a.id, dnsAllNames[a.name], dnsmessage.TypeToString[a.qtype])
 				}
@@ -165,6 +172,9 @@ func (t *dnsCacheTrack) scan() {
 		return true
 	})
 	before := len(t.cur)
+	if len(seen) > w.maxCount {
+		w.maxCount = len(seen)
+	}
 	var gone []string
 	for raw := range t.cur {
 		if !seen[raw] {
